@@ -406,6 +406,10 @@ def _run_shard(ctx):
     for s in enum_lines(ctx, bound - 2, 11):
         check_text(ctx, "<a>\nk v\n</a" + s + "\n", "closer")
         check_text(ctx, "<b>\n<a>\n</a" + s + "\n</b>\n", "closer")
+    # ... and with anything between '</' and the type
+    for s in enum_lines(ctx, bound - 2, 12):
+        check_text(ctx, "<a>\nk v\n</" + s + "a>\n", "closer")
+        check_text(ctx, "<a>\n</" + s + "a" + s + ">\n", "closer")
     # closers that equal the open type only under case *folding*
     # (lower-casing is what the grammar says): must be mismatches
     idx = 0
